@@ -265,6 +265,22 @@ def judge_str(out, case, st, k, ci):
             out.fail("get-add-not-exactly-one-append|%s" % kc,
                      "after s.get(%r, add=True) -> %r: %r; %s" % (k, r, st.show(), ctx))
 
+    # --- get() with a default that is an item of the section itself (s.get("TDD", default=s["TD"]))
+    if m is None and n >= 1 and k.strip():
+        for add in (False, True):
+            st = fresh(case)
+            dflt = st.items[0]
+            r = attempt(st.s.get, k, default=dflt, add=add)
+            now = st.d.items()
+            if is_raised(r):
+                out.fail("get-default-item-raised|%s|%s" % (kc, r.type), "s.get(%r, default=<item 0>, add=%r) raised %s; %s" % (k, add, r, ctx))
+            elif not add and not st.unchanged():
+                out.fail("get-changed-section|default-is-member", "after s.get(%r, default=<item 0>): %r; %s" % (k, st.show(), ctx))
+            elif add and not (len(now) == n + 1 and same_items(now[:n], st.items) and now[n] is r and r is not dflt
+                              and [it.original_mnemonic for it in now[:n]] == [c[0] for c in st.content]):
+                out.fail("get-add-not-exactly-one-append|default-is-member",
+                         "after s.get(%r, default=<item 0>, add=True) -> %r: %r; %s" % (k, r, st.show(), ctx))
+
     # --- s[k] = plain value
     if m is not None:
         st = fresh(case)
